@@ -1,4 +1,5 @@
 import functools
+import re
 from collections.abc import Sequence
 from typing import cast
 
@@ -224,7 +225,18 @@ def compare_var(p1: Place, p2: Place) -> int:
     We need to output linear variables at the end, so we do a lexicographic ordering of
     linearity and name.
     """
-    return -1 if (p1.ty.linear, str(p1)) < (p2.ty.linear, str(p2)) else 1
+    return -1 if (p1.ty.linear, _name_key(p1)) < (p2.ty.linear, _name_key(p2)) else 1
+
+
+def _name_key(place: Place) -> list[str | int]:
+    """Splits the name of a place into its text and number parts.
+
+    Names of temporary variables end in a running counter (`%tmp9`, `%tmp10`). Comparing
+    the counter as a number keeps their relative order independent of how many
+    temporaries have been handed out earlier in the session.
+    """
+    parts = re.split(r"(\d+)", str(place))
+    return [int(part) if part.isdigit() else part for part in parts]
 
 
 def sort_vars(row: Row[Place]) -> list[Place]:
